@@ -256,10 +256,87 @@ func takeover(L, hold time.Duration, useCtx bool) (sig, what string, stall time.
 	return sig, what, 0
 }
 
+// holdCas is a kvs.Storage that keeps the answer of the n-th CasByVersion in flight after the inner
+// store has applied it: applied is closed then, the call returns when release is closed.
+type holdCas struct {
+	kvs.Storage
+	n       int32
+	seen    atomic.Int32
+	applied chan struct{}
+	release chan struct{}
+}
+
+func (h *holdCas) CasByVersion(ctx context.Context, r kvs.Record) (kvs.Record, error) {
+	k := h.seen.Add(1)
+	res, err := h.Storage.CasByVersion(ctx, r)
+	if k == h.n {
+		close(h.applied)
+		<-h.release
+	}
+	return res, err
+}
+
+// staleRenewal: real clock, short lease. Holder A's n-th lease renewal has been applied by the storage but
+// its answer is still in flight when A unlocks; B (another provider) acquires; then the late answer arrives
+// at A's renewal routine. Whatever that routine does now, B holds: a third Locker spinning TryLock for two
+// leases must never get the lock. Canary-guarded like takeover.
+func staleRenewal(L time.Duration, n int32) (sig, what string, stall time.Duration) {
+	inner := inmem.New()
+	hc := &holdCas{Storage: inner, n: n, applied: make(chan struct{}), release: make(chan struct{})}
+	pa := dist.NewKvsLockProvider(hc, "/sr/")
+	pb := dist.NewKvsLockProvider(inner, "/sr/")
+	pc := dist.NewKvsLockProvider(inner, "/sr/")
+	for _, p := range []dist.LockProvider{pa, pb, pc} {
+		dist.VerifSetLeaseTTL(p, L)
+		defer p.Shutdown()
+	}
+	la, lb, lc := pa.NewLocker("x"), pb.NewLocker("x"), pc.NewLocker("x")
+	var worst atomic.Int64
+	stopCanary := make(chan struct{})
+	go func() {
+		for {
+			select {
+			case <-stopCanary:
+				return
+			default:
+			}
+			t := time.Now()
+			time.Sleep(2 * time.Millisecond)
+			if over := int64(time.Since(t) - 2*time.Millisecond); over > worst.Load() {
+				worst.Store(over)
+			}
+		}
+	}()
+	defer func() { close(stopCanary); stall = time.Duration(worst.Load()) }()
+	la.Lock()
+	select {
+	case <-hc.applied:
+	case <-time.After(time.Duration(n+2)*L + 10*time.Second):
+		close(hc.release)
+		la.Unlock()
+		return "", "", 0
+	}
+	la.Unlock()
+	lb.Lock()
+	close(hc.release)
+	deadline := time.Now().Add(2 * L)
+	for time.Now().Before(deadline) {
+		if lc.TryLock(context.Background()) {
+			sig = "lock/two-holders"
+			what = fmt.Sprintf("real clock, lease %v: a third caller's TryLock succeeded while another caller holds the lock; the previous holder's renewal %d was answered after it had unlocked", L, n)
+			lc.Unlock()
+			break
+		}
+		time.Sleep(L / 10)
+	}
+	lb.Unlock()
+	return sig, what, 0
+}
+
 func TestCheck(t *testing.T) {
 	run := report.New(prop, "fault_enumeration")
 	defer run.Finish(t)
-	run.Rule("controlled: scenarios of 2-5 workers (distinct Lockers of 1-3 providers and goroutines sharing a Locker) running programs over {Lock, TryLock, LockWithCtx} inside a synctest bubble; every kvs.Storage call of the lock code is a gate, the scheduler picks one enabled action per step (release a gate normally / as 'request lost' / as 'reply lost' with up to 2 faults, cancel an attempt before or during the call, leave a critical section, expire an ownerless record) - random and PCT schedules plus exhaustive DFS of 27 two-worker configurations with <=1 fault; monitor: number of callers between acquisition return and Unlock call never exceeds 1. take-over: on the real clock with a 300/400 ms lease (hook) a caller waits 1.25-2 leases behind a holder, takes over and holds for 3 leases against a TryLock-spinning third Locker (canary-guarded). free-running: same monitor under real scheduling with the race detector on inmem and Redis(miniredis). distinct = distinct (configuration, action trace) pairs executed in the controlled part")
+	run.Rule("controlled: scenarios of 2-5 workers (distinct Lockers of 1-3 providers and goroutines sharing a Locker) running programs over {Lock, TryLock, LockWithCtx} inside a synctest bubble; every kvs.Storage call of the lock code is a gate, the scheduler picks one enabled action per step (release a gate normally / as 'request lost' / as 'reply lost' with up to 2 faults, cancel an attempt before or during the call, leave a critical section, expire an ownerless record) - random and PCT schedules plus exhaustive DFS of 27 two-worker configurations with <=1 fault; monitor: number of callers between acquisition return and Unlock call never exceeds 1. take-over: on the real clock with a 300/400 ms lease (hook) a caller waits 1.25-2 leases behind a holder, takes over and holds for 3 leases against a TryLock-spinning third Locker (canary-guarded); stale renewal: the answer of the previous holder's n-th renewal arrives after it unlocked and another caller acquired. free-running: same monitor under real scheduling with the race detector on inmem and Redis(miniredis). distinct = distinct (configuration, action trace) pairs executed in the controlled part")
 	run.Assume("controlled part: frozen virtual time, so leases never expire under a live holder (the property's premise); storage operations are atomic steps there - their internal atomicity is what the free-running part and C02 look at")
 	run.Assume("an ownerless lock record (left by an injected lost reply / lost Delete) disappears only through the explicit 'expire' action, which models lease expiry")
 
@@ -295,6 +372,33 @@ func TestCheck(t *testing.T) {
 				run.DistinctStr(fmt.Sprint("takeover", L, hold, i%3 == 0))
 				if sig != "" {
 					run.Violation(sig, what, map[string]any{"mode": "takeover", "lease": L.String(), "first_hold": hold.String(), "with_ctx": i%3 == 0})
+				}
+				return
+			}
+		}(i)
+	}
+	for i := 0; i < run.Pick(6, 24); i++ {
+		twg.Add(1)
+		go func(i int) {
+			defer twg.Done()
+			L := []time.Duration{400 * time.Millisecond, 300 * time.Millisecond}[i%2]
+			n := int32(1 + i%3)
+			for attempt := 1; ; attempt++ {
+				sig, what, stall := staleRenewal(L, n)
+				run.Max("canary_worst_stall_us", int64(stall/time.Microsecond))
+				if sig != "" && stall > L/8 {
+					if attempt < 3 {
+						run.Add("takeover_repeated_because_of_a_stall", 1)
+						continue
+					}
+					run.Inconclusive(fmt.Sprintf("stale-renewal scenario: %s (canary stall %v)", what, stall))
+					return
+				}
+				run.Eval(1)
+				run.Add("stale_renewal_scenarios", 1)
+				run.DistinctStr(fmt.Sprint("stale-renewal", L, n))
+				if sig != "" {
+					run.Violation(sig, what, map[string]any{"mode": "stale-renewal", "lease": L.String(), "renewal": n})
 				}
 				return
 			}
